@@ -10,7 +10,7 @@
  *                     streams (the operator creates one generator chain per core) but only the master stream is
  *                     handed tasks, so EVERY task-level interleaving of the chains is enumerated deterministically
  *                     (<= MAXALL tiles: all; larger: deviation bounded).
- *  leg reduce-orders: mt in 1..5 (column of tiles), every task-level order.
+ *  leg reduce-orders: mt in 1..9 (column of tiles), every task-level order.
  *  leg threads      : free running, threads {1,2,4} x schedulers {default, ap, ll}, all shapes (configuration box).
  */
 #include "hsched.h"
@@ -19,6 +19,9 @@
 #include "parsec/data_dist/matrix/matrix.h"
 #include "parsec/data_dist/matrix/two_dim_rectangle_cyclic.h"
 #include <stdarg.h>
+#include <fcntl.h>
+#include <sys/resource.h>
+#include "parsec/data_dist/matrix/reduce.h"
 
 #define MAXD 6
 extern parsec_taskpool_t *c22_reduce_tree_new(parsec_tiled_matrix_t *A, parsec_tiled_matrix_t *R, void *neutral);
@@ -39,7 +42,7 @@ static int op_unary(struct parsec_execution_stream_s *es, const parsec_tiled_mat
     (void)es;
     if (m < 0 || n < 0 || m >= MAXD || n >= MAXD) { badarg |= 1; return 0; }
     __sync_add_and_fetch(&visits[m][n], 1);
-    if (wr_leg) { static volatile int lk = 0; while (__sync_lock_test_and_set(&lk, 1)) ; logtile(m, n); __sync_lock_release(&lk); }
+    { static volatile int lk = 0; while (__sync_lock_test_and_set(&lk, 1)) ; logtile(m, n); __sync_lock_release(&lk); }
     if (d != exp_desc || args != exp_args) badarg |= 2;
     if (m >= g_mt || n >= g_nt) { badarg |= 1; return 0; }
     if (A != (void *)&g_Amat[n * g_mt + m]) badarg |= 4;                       /* the tile handed over is tile (m,n) of the collection */
@@ -87,7 +90,16 @@ static int cfg_parse(const char *cas, cfg_t *c)
     c->mt = (int)wr_case_int(cas, "mt", 1); c->nt = (int)wr_case_int(cas, "nt", 1); c->mode = (int)wr_case_int(cas, "dest", 0); c->threads = (int)wr_case_int(cas, "threads", 1);
     if (wr_case_get(cas, "uplo", v, sizeof(v))) c->uplo = !strcmp(v, "upper") ? 1 : !strcmp(v, "lower") ? 2 : 0;
     static char sch[32]; if (wr_case_get(cas, "sched", sch, sizeof(sch)) && strcmp(sch, "hsched")) c->sched = sch;
-    return (c->mt < 1 || c->nt < 1 || c->mt >= MAXD || c->nt >= MAXD) ? -1 : 0;
+    return (c->mt < 1 || c->nt < 1 || c->mt >= (c->op == 'r' ? 10 : MAXD) || c->nt >= MAXD) ? -1 : 0;
+}
+
+/* reduce-tree hook (called from the BODY of the repo's reduce.jdf, see reduce_wrap.c) */
+static int red_root_val, red_root_hits, red_tasks;
+void c22_reduce_body(void *A, void *B, void *C, void *neutral, int l, int p, int depth)
+{
+    *(int *)C = *(int *)A + (B ? *(int *)B : *(int *)neutral);
+    red_tasks++; if (loglen + 8 < (int)sizeof(logbuf)) loglen += snprintf(logbuf + loglen, sizeof(logbuf) - loglen, "%d.%d ", l, p);
+    if (l == depth + 1) { red_root_val = *(int *)C; red_root_hits++; (void)p; }   /* the task whose C goes to R(p,0) */
 }
 
 static int run_case(parsec_context_t *parsec, const cfg_t *c, char *err, size_t errlen, char *outcome, size_t outlen)
@@ -122,23 +134,23 @@ static int run_case(parsec_context_t *parsec, const cfg_t *c, char *err, size_t 
         /* reduce tree over the tiles of column 0: tile i holds 10^i, so the decimal digits of the result count how often each tile was folded in */
         static int neutral = 0; int p10 = 1, want = 0;
         for (int i = 0; i < mt; i++) { g_Amat[i] = p10; want += p10; p10 *= 10; }
-        g_Bmat[0] = -1;
+        g_Bmat[0] = -1; red_root_val = -1; red_root_hits = 0; red_tasks = 0;
         parsec_taskpool_t *tp = c22_reduce_tree_new(&A.super, &B.super, &neutral);
         parsec_context_add_taskpool(parsec, tp); parsec_context_start(parsec); int rc = parsec_context_wait(parsec);
         if (rc != PARSEC_SUCCESS) { bad = 1; snprintf(err, errlen, "parsec_context_wait returned %d", rc); }
         c22_reduce_tree_free(tp);
-        if (!bad && g_Bmat[0] != want) { bad = 1; snprintf(err, errlen, "reduction of %d tiles (tile i = 10^i, operator +) produced %d, sequential fold gives %d", mt, g_Bmat[0], want); }
+        /* MPI-less builds generate no write-back of a NEW flow into R (jdf2c: "#if defined(DISTRIBUTED)"), so the value that the
+         * root task sends to R(0,0) is taken from the root task's C */
+        if (!bad && red_root_hits != 1) { bad = 1; snprintf(err, errlen, "%d tasks send a result to R (expected exactly one root) for %d tiles", red_root_hits, mt); }
+        if (!bad && red_root_val != want) { bad = 1; snprintf(err, errlen, "reduction of %d tiles (tile i = 10^i, operator +) produced %d, sequential fold gives %d (each decimal digit = how often that tile was folded in)", mt, red_root_val, want); }
         for (int i = 0, q = 1; i < mt && !bad; i++, q *= 10) if (g_Amat[i] != q) { bad = 1; snprintf(err, errlen, "input tile %d was modified by the reduction (%d)", i, g_Amat[i]); }
-        loglen = snprintf(logbuf, sizeof(logbuf), "R=%d", g_Bmat[0]);
+        if (loglen + 24 < (int)sizeof(logbuf)) loglen += snprintf(logbuf + loglen, sizeof(logbuf) - loglen, "R=%d", red_root_val);
     }
     if (!bad && badarg) { bad = 1; snprintf(err, errlen, "operator called with wrong arguments (mask %d: 1 tile index out of range, 2 descriptor/op_args, 4 tile pointer, 8 uplo, 16 dest pointer)", badarg); }
     if (outcome) snprintf(outcome, outlen, "%s", logbuf);
     mat_fini(&A); mat_fini(&B);
     return bad;
 }
-
-/* reduce-tree hook (called from the BODY of the repo's reduce.jdf, see reduce_wrap.c) */
-void c22_reduce_body(void *A, void *B, void *C, void *neutral) { *(int *)C = *(int *)A + (B ? *(int *)B : *(int *)neutral); }
 
 static parsec_task_t *c22_select(parsec_execution_stream_t *es, int32_t *distance)
 {
@@ -166,7 +178,7 @@ static void explore_cfg(parsec_context_t *parsec, hs_explorer_t *ex, const cfg_t
     char cs[256], chs[2048], err[512], outc[1024];
     cfg_str(c, cs, sizeof(cs));
     double rem = wr_deadline > 0 ? wr_deadline - wr_now() : 0; if (wr_deadline > 0 && rem < 0.05) { wr_leg->exhaustive = 0; return; }
-    int all = region_size(c) <= MAXALL;
+    int all = c->op == 'r' || region_size(c) <= MAXALL;   /* the reduction trees (<= 9 tiles) are always explored completely */
     hs_begin(ex, all ? -1 : MAXDEV, rem);
     while (hs_next(ex)) {
         cho_str(ex->prefix, ex->prefix_len, chs, sizeof(chs));
@@ -208,7 +220,7 @@ static void leg_orders(int slice, int nslices, void *arg_)
             explore_cfg(parsec, ex, &c);
         }
     } else {
-        for (int mt = 1; mt <= 5; mt++) { if ((idx++ % nslices) != slice) continue; c.mt = mt; c.nt = 1; explore_cfg(parsec, ex, &c); }
+        for (int mt = 9; mt >= 1; mt--) { if ((idx++ % nslices) != slice) continue; c.mt = mt; c.nt = 1; explore_cfg(parsec, ex, &c); }
     }
     hs_uninstall(parsec);
     parsec_fini(&parsec);
@@ -223,7 +235,7 @@ static void leg_threads(int slice, int nslices, void *arg_)
     parsec_context_t *parsec = init_ctx(threads, sched);
     int reps = wr_thorough ? 20 : 2; char cs[256], err[512], outc[1024];
     cfg_t c; memset(&c, 0, sizeof(c)); c.threads = threads; c.sched = sched ? sched : "default";
-    for (int o = 0; o < 3; o++) for (int mt = 1; mt <= (o == 2 ? 5 : 4); mt++) for (int nt = 1; nt <= (o == 2 ? 1 : 4); nt++) for (int v = 0; v < (o == 2 ? 1 : 3); v++) {
+    for (int o = 0; o < 3; o++) for (int mt = 1; mt <= (o == 2 ? 9 : 4); mt++) for (int nt = 1; nt <= (o == 2 ? 1 : 4); nt++) for (int v = 0; v < (o == 2 ? 1 : 3); v++) {
         if (o == 2 && !with_reduce) continue;
         c.op = "amr"[o]; c.mt = mt; c.nt = nt; c.uplo = o == 0 ? v : 0; c.mode = o == 1 ? v : 0;
         cfg_str(&c, cs, sizeof(cs));
@@ -267,6 +279,69 @@ static void leg_replay(int slice, int nslices, void *arg_)
     }
 }
 
+/* ---- leg "builtin-reductions": the library's own reduction taskpools, unmodified -------------------------------
+ * parsec_reduce_new (reduce.jdf as compiled into libparsec), parsec_reduce_col_New, parsec_reduce_row_New with an integer +
+ * operator. Each call runs in its own process (stderr captured). Signatures:
+ *   "no-fold"  : the run completes but the destination does not hold the sequential fold  -> C22-reduce-bodies-ignore-operator
+ *   "bounds"   : abort on the two_dim_rectangle_cyclic bounds assertion (tile row mt / column nt addressed) -> C22-reduce-rowcol-wrapper-bounds
+ * anything else (other crash, hang, wrong signature for the call) is a violation; so is a listed signature whose id is not in known_findings.json. */
+static int op_sum(struct parsec_execution_stream_s *es, const void *src, void *dst, void *op_data, ...) { (void)es; (void)op_data; *(int *)dst += *(const int *)src; return 0; }
+static const char *known_ids = "";
+static int builtin_child(int which, int mt, int nt)
+{
+    parsec_context_t *parsec = init_ctx(1, NULL);
+    parsec_matrix_block_cyclic_t A, B; static int neutral = 0;
+    mat_init(&A, mt, nt, "A", 1); mat_init(&B, which == 0 ? 1 : mt, which == 0 ? 1 : nt, "B", 0);
+    int want = 0; for (int i = 0; i < mt * nt; i++) { if (which == 0 && i >= mt) break; want += ((int *)A.mat)[i]; }
+    for (int i = 0; i < (which == 0 ? 1 : mt * nt); i++) ((int *)B.mat)[i] = -1;
+    parsec_taskpool_t *tp;
+    if (which == 0) { tp = (parsec_taskpool_t *)parsec_reduce_new(&A.super, &B.super, &neutral);
+        parsec_arena_datatype_set_type(&((parsec_reduce_taskpool_t *)tp)->arenas_datatypes[PARSEC_reduce_DEFAULT_ADT_IDX], sizeof(int), PARSEC_ARENA_ALIGNMENT_SSE, PARSEC_DATATYPE_NULL); }
+    else if (which == 1) tp = parsec_reduce_col_New(&A.super, &B.super, op_sum, NULL);
+    else tp = parsec_reduce_row_New(&A.super, &B.super, op_sum, NULL);
+    if (!tp) return 40;
+    parsec_context_add_taskpool(parsec, tp); parsec_context_start(parsec); int rc = parsec_context_wait(parsec);
+    if (rc != 0) return 41;
+    /* does any destination tile hold the fold of the tiles it should combine? (which==0: column 0 of A into B(0,0)) */
+    int ok = which == 0 ? ((int *)B.mat)[0] == want : 0;
+    return ok ? 0 : 42;
+}
+static int bf_which = -1, bf_mt, bf_nt;   /* replay filter */
+static void leg_builtin(void)
+{
+    double t0 = wr_now(); long execs = 0, nknown = 0; int viol = 0; wr_set_t sigs = {0}; char sample[2][1024]; int ns = 0;
+    static const char *WN[3] = { "parsec_reduce_new", "parsec_reduce_col_New", "parsec_reduce_row_New" };
+    typedef struct { int which, mt, nt, fd; pid_t pid; } job_t; job_t jobs[64]; int nj = 0;
+    int mx = (wr_thorough || bf_which >= 0) ? 5 : 3;
+    for (int which = 0; which < 3; which++) for (int mt = 1; mt <= (which == 0 ? 5 : mx); mt++) for (int nt = 1; nt <= (which == 0 ? 1 : mx); nt++) {
+        if (bf_which >= 0 && (which != bf_which || mt != bf_mt || nt != bf_nt)) continue;
+        int pfd[2]; if (pipe(pfd)) { perror("pipe"); exit(2); }
+        fflush(stdout); fflush(stderr);
+        pid_t pid = fork();
+        if (pid == 0) { struct rlimit rl = { 0, 0 }; setrlimit(RLIMIT_CORE, &rl); close(pfd[0]); dup2(pfd[1], 2); int dn = open("/dev/null", O_WRONLY); dup2(dn, 1); alarm(60); _exit(builtin_child(which, mt, nt)); }
+        close(pfd[1]); jobs[nj].which = which; jobs[nj].mt = mt; jobs[nj].nt = nt; jobs[nj].fd = pfd[0]; jobs[nj].pid = pid; nj++;
+    }
+    for (int j = 0; j < nj; j++) {
+        int which = jobs[j].which, mt = jobs[j].mt, nt = jobs[j].nt; pid_t pid = jobs[j].pid;
+        char cas[256]; snprintf(cas, sizeof(cas), "op=builtin call=%s mt=%d nt=%d", WN[which], mt, nt);
+        char eb[4096]; int el = 0, r; while ((r = (int)read(jobs[j].fd, eb + el, sizeof(eb) - 1 - el)) > 0) el += r; eb[el] = 0; close(jobs[j].fd);
+        int st; waitpid(pid, &st, 0); execs++;
+        const char *sig = NULL, *id = NULL; char msg[600];
+        if (WIFEXITED(st) && WEXITSTATUS(st) == 0) sig = "fold";
+        else if (WIFEXITED(st) && WEXITSTATUS(st) == 42) { sig = "no-fold"; id = "C22-reduce-bodies-ignore-operator"; }
+        else if (WIFSIGNALED(st) && WTERMSIG(st) == SIGABRT && strstr(eb, "two_dim_rectangle_cyclic.c") && strstr(eb, "Assertion") && (strstr(eb, "< dc->super.nt") || strstr(eb, "< dc->super.mt")) && which != 0) { sig = "bounds"; id = "C22-reduce-rowcol-wrapper-bounds"; }
+        char so[300]; snprintf(so, sizeof(so), "%s:%s", WN[which], sig ? sig : "other"); wr_set_add(&sigs, wr_hash(so, strlen(so)));
+        if (ns < 2 && (execs == 2 || execs == 8)) snprintf(sample[ns++], 1024, "%s => %s", cas, sig ? sig : "other");
+        if (sig && !id) continue;
+        if (id && strstr(known_ids, id)) { nknown++; wr_known_finding("id=%s %s", id, !strcmp(sig, "bounds") ? "parsec_reduce_col_New / parsec_reduce_row_New address tile row mt / column nt (bounds assertion of the 2D block-cyclic collection)" : "the built-in tree reduction completes but its destination does not hold the fold of the tiles (bodies apply no operator)"); continue; }
+        if (id) snprintf(msg, sizeof(msg), "signature '%s' of known finding %s, which is not listed in known_findings.json", sig, id);
+        else { for (char *q = eb; *q; q++) if (*q == '\n') *q = ' '; snprintf(msg, sizeof(msg), "unexpected failure of the built-in reduction (wait status 0x%x): %.400s", st, eb); }
+        wr_violation("builtin-reductions", cas, msg); viol++;
+    }
+    const char *sp[2] = { sample[0], sample[1] }; char extra[128]; snprintf(extra, sizeof(extra), "\"known_finding_hits\":%ld", nknown);
+    wr_report("builtin-reductions", execs, execs, execs, 0, (long)sigs.n, !wr_expired() && !viol, viol, wr_now() - t0, extra, sp, ns);
+}
+
 int main(int argc, char **argv)
 {
     wr_init(argc, argv, "C22");
@@ -277,17 +352,25 @@ int main(int argc, char **argv)
         else if (!strcmp(argv[i], "--maxall") && i + 1 < argc) MAXALL = atoi(argv[++i]);
         else if (!strcmp(argv[i], "--maxdev") && i + 1 < argc) MAXDEV = atoi(argv[++i]);
         else if (!strcmp(argv[i], "--no-reduce")) with_reduce = 0;
+        else if (!strcmp(argv[i], "--known") && i + 1 < argc) known_ids = argv[++i];
     }
     static const char *aux[] = { "configurations", "configurations_all_orders", NULL };
     if (wr_replay_file) {
         static char scen[128], cas[WR_CASELEN];
         if (wr_read_replay(wr_replay_file, scen, sizeof(scen), cas, sizeof(cas))) { fprintf(stderr, "cannot read replay file\n"); return 2; }
+        if (strstr(cas, "op=builtin")) {
+            char v[64]; wr_case_get(cas, "call", v, sizeof(v)); bf_which = !strcmp(v, "parsec_reduce_new") ? 0 : !strcmp(v, "parsec_reduce_col_New") ? 1 : 2;
+            bf_mt = (int)wr_case_int(cas, "mt", 1); bf_nt = (int)wr_case_int(cas, "nt", 1); leg_builtin();
+            if (!wr_total_violations) printf("  replay: case passes\n");
+            return wr_finish();
+        }
         wr_run_legs("replay", 1, leg_replay, cas, 30, NULL);
         return wr_finish();
     }
+    if (!only || !strcmp(only, "builtin")) leg_builtin();
     if (!only || !strcmp(only, "threads")) wr_run_legs("threads", 9, leg_threads, NULL, 40, aux);
     leg_arg_t a = { 'a', 1 }, m1 = { 'm', 1 }, m2 = { 'm', 2 }, m4 = { 'm', 4 }, r = { 'r', 1 };
-    if (with_reduce && (!only || !strcmp(only, "reduce"))) wr_run_legs("reduce-orders", 5, leg_orders, &r, 30, aux);
+    if (with_reduce && (!only || !strcmp(only, "reduce"))) wr_run_legs("reduce-orders", 9, leg_orders, &r, 30, aux);
     if (!only || !strcmp(only, "map")) { wr_run_legs("map-orders-1core", 2, leg_orders, &m1, 30, aux); wr_run_legs("map-orders-2cores", jobs > 6 ? 6 : jobs, leg_orders, &m2, 30, aux); wr_run_legs("map-orders-4cores", jobs, leg_orders, &m4, 30, aux); }
     if (!only || !strcmp(only, "apply")) wr_run_legs("apply-orders", jobs, leg_orders, &a, 30, aux);
     return wr_finish();
